@@ -103,7 +103,7 @@ type Conn struct {
 	rx       cipher.Stream
 	rxMagic  []byte
 	scanning bool
-	buf      []byte // scan buffer, then decrypted leftover
+	buf      []byte       // scan buffer, then decrypted leftover
 	peerPad  atomic.Int64 // read by the harness while Read is parked
 }
 
